@@ -48,6 +48,14 @@ structure Plan where
 def plan (timeout : Int) : Plan :=
   ⟨grace timeout, ctxTimeout timeout, ctxTimeout timeout + fgKillDelay timeout⟩
 
+/-- When the context of a script expires, on a clock on which RunT is called at `call` and the
+script's subtest function starts at `start` (≥ `call`: later when subtests run one after the other
+or wait for a free slot): ONE context for the whole RunT call, created when RunT is called — or
+one per script, created when the script starts (what `ctxCreatedOncePerRun = false` would mean:
+the relative timeout would then count from the script's start). -/
+def scriptCtxExpiry (call start timeout : Int) : Int :=
+  (if Gen.TsLifeDl.ctxCreatedOncePerRun then call else start) + ctxTimeout timeout
+
 /-- structural facts behind §1: the order of the four statements and that every script gets this
 context and this grace period, which `exec` hands to waitOrStop as the kill delay. -/
 class FDeadline : Prop where
